@@ -294,6 +294,9 @@ pub fn pointcloud_tr(pc: &PointCloud) -> Value {
         "sensor_vendor": ostr(&pc.sensor_vendor), "sensor_model": ostr(&pc.sensor_model), "sensor_serial": ostr(&pc.sensor_serial),
         "sensor_hw": ostr(&pc.sensor_hw_version), "sensor_sw": ostr(&pc.sensor_sw_version), "sensor_fw": ostr(&pc.sensor_fw_version),
         "temperature": of64(&pc.temperature), "humidity": of64(&pc.humidity), "pressure": of64(&pc.atmospheric_pressure),
+        "gcb": opt(&pc.get_cartesian_bounds(), |b| json!({"xmin":of64(&b.x_min),"xmax":of64(&b.x_max),"ymin":of64(&b.y_min),"ymax":of64(&b.y_max),"zmin":of64(&b.z_min),"zmax":of64(&b.z_max)})),
+        "has": {"cart": pc.has_cartesian() as u8, "sph": pc.has_spherical() as u8, "color": pc.has_color() as u8, "intensity": pc.has_intensity() as u8,
+                "rowcol": pc.has_row_column() as u8, "ret": pc.has_return() as u8, "ts": pc.has_timestamp() as u8},
     })
 }
 
